@@ -1,10 +1,33 @@
 use std::fmt::{Result as FmtResult, Write as FmtWrite};
 
 use super::{Stringifier, Stringify};
-use crate::{
-    escape::gen_lit_str,
-    parse::expr::{ArrayFieldKind, Expression, ObjectFieldKind},
-};
+use crate::parse::expr::{ArrayFieldKind, Expression, ObjectFieldKind};
+
+/// A string literal in the escape syntax the expression parser reads back
+/// (`\n \r \t \b \f \v \0 \xHH`, `\"` and `\\`; everything else verbatim).
+fn str_literal(s: &str) -> String {
+    let mut ret = String::with_capacity(s.len() + 2);
+    ret.push('"');
+    for c in s.chars() {
+        match c {
+            '"' => ret.push_str("\\\""),
+            '\\' => ret.push_str("\\\\"),
+            '\n' => ret.push_str("\\n"),
+            '\r' => ret.push_str("\\r"),
+            '\t' => ret.push_str("\\t"),
+            '\x08' => ret.push_str("\\b"),
+            '\x0C' => ret.push_str("\\f"),
+            '\x0B' => ret.push_str("\\v"),
+            '\0' => ret.push_str("\\0"),
+            c if (c as u32) < 0x20 || c as u32 == 0x7F => {
+                ret.push_str(&format!("\\x{:02x}", c as u32));
+            }
+            c => ret.push(c),
+        }
+    }
+    ret.push('"');
+    ret
+}
 
 #[repr(u8)]
 #[derive(Debug, Clone, Copy, PartialEq, PartialOrd, Eq, Ord)]
@@ -106,7 +129,7 @@ fn expression_strigify_write<'s, W: FmtWrite>(
             stringifier.write_token("null", None, location)?;
         }
         Expression::LitStr { value, location } => {
-            let quoted = gen_lit_str(&value);
+            let quoted = str_literal(&value);
             stringifier.write_token(&format!(r#"{}"#, quoted), None, &location)?;
         }
         Expression::LitInt { value, location } => {
